@@ -625,6 +625,8 @@ def c07(res, tier, seed):
     for cx in cxs:
         mt.q_fields(cx)
         mt.run_queries(cx, timeout_s=900 if tier == "quick" else 2400)
+    # long lines (20 symbolic bytes + a run of up to 3840 copies of one payload character): bug hunting only (quick 100 s, thorough 900 s)
+    mt_gap_no_panic(res, ("std",), seed, N=20, timeout_s=100 if tier == "quick" else 900, width=12, queries=("q_fields",), hunt=True)
     msq, ql, rels = m_setup(res, ("std", "none") if tier == "quick" else ALL, seed)
     for c, rel in rels.items():
         msq.q_decode_flag(res, rel, ql)
